@@ -9,6 +9,7 @@ CONSTANTS
   Ids <- $4
   IdPath <- $5
   THs = $6
+  LGs = $LG
   MaxHead = 2
   Peers <- $7
   Legacy <- $8
@@ -17,6 +18,7 @@ CONSTANTS
   FIX_SET_COUNT = TRUE
   FIX_MERGE_UP = TRUE
   FIX_NIL_HASH = TRUE
+  DEV_SAME_COUNT_EQUAL = FALSE
   GenDepth = ${10}
   GenMany = ${11}
   GenPick = ${12}
@@ -24,6 +26,7 @@ INVARIANT Emit
 CHECK_DEADLOCK FALSE
 EOF
 }
+LG="{1}"
 # exhaustive (every history of the given length), single peer, no multi-element Set
 mkg LdiffGen_x1.cfg 2 3 Ids2_3 U2 "{1, 2}" JustL NoPeer 1 3 0 0
 mkg LdiffGen_x1t.cfg 2 3 Ids2_3 U2 "{1, 2}" JustL NoPeer 1 4 0 0
@@ -42,4 +45,11 @@ mkg LdiffGen_l2_3.cfg 3 3 Ids3_6 U3 "{1, 2}" LR OnlyR 2 12 2 1
 mkg LdiffGen_p2.cfg 2 3 Ids2_3c U2 "{1, 2}" LR NoPeer 1 2 0 0
 mkg LdiffGen_p2t.cfg 2 3 Ids2_4 U2 "{1, 2}" LR NoPeer 1 2 0 0
 mkg LdiffGen_p3t.cfg 3 3 Ids3_4 U3 "{1, 2}" LR NoPeer 1 2 0 0
-sed -i 's/^SPECIFICATION GenSpec/SPECIFICATION PairSpec/' LdiffGen_p2.cfg LdiffGen_p2t.cfg LdiffGen_p3t.cfg
+# independently tuned peers with different divide factors (DF^1 / DF^2), depth 4
+LG="{1, 2}"
+mkg LdiffGen_p4m.cfg 2 4 Ids4_3 U4 "{1, 2}" LR NoPeer 1 2 0 0
+mkg LdiffGen_s1_4m.cfg 2 4 Ids4_5 U4 "{1, 2}" JustL NoPeer 3 12 4 1
+mkg LdiffGen_s2_4m.cfg 2 4 Ids4_5 U4 "{1, 2}" LR NoPeer 2 10 2 1
+mkg LdiffGen_l2_4m.cfg 2 4 Ids4_5 U4 "{1, 2}" LR OnlyR 2 12 2 1
+LG="{1}"
+sed -i 's/^SPECIFICATION GenSpec/SPECIFICATION PairSpec/' LdiffGen_p2.cfg LdiffGen_p2t.cfg LdiffGen_p3t.cfg LdiffGen_p4m.cfg
